@@ -18,17 +18,20 @@ import (
 // Protocols (in replies a space is printed as '_' and a newline as '|'):
 //
 //	tsp  n w...                 reply: err=E wd=<distinct pairs weights was called on> out=<bytes received>
-//	tspc n w...                 reply: c=[len ...]  lengths of the Write calls that start after the header
-//	                            (ties the model of text/tabwriter's write pattern; compares nothing about LIB itself)
 //	tspf n w... ; b z kind perm reply: err=E wd=.. d=<bytes received>
+//	tspc n w...                 reply: c=[len ...]  lengths of the Write calls that start after the header.
+//	                            INFORMATION ONLY, never generated: the partition into Write calls is not fixed by the property.
 //
 // tspf describes a failing writer by bytes, so that the reply does not depend on how LIB cuts its output into
 // Write calls: the writer accepts exactly b bytes; the Write that would exceed that accepts the part that fits and
-// fails — kind e: returns (part, error) [b at the start of a call: plain (0, err); inside: short count with error];
-// kind s: returns (part, nil) [violates the io.Writer contract; only model and code are compared, d= is printed only
-// when b lies after the header]; z=1: an empty Write arriving when exactly b bytes have been accepted fails too
-// (tabwriter ends every flush with an empty Write).  perm p: every later Write fails with (0, err); t: later
-// Writes succeed (transient).
+// fails with (part, error) [kind e; b at the start of a call: plain (0, err); inside a call: short count with error].
+// z=1: an empty Write arriving when exactly b bytes have been accepted fails too (tabwriter ends every flush with an
+// empty Write; for code satisfying the property the reply is the same as with z=0: the next non-empty Write fails
+// instead, with the same b bytes delivered).  perm p: every later Write fails with (0, err); t: later Writes succeed
+// (transient).  The reply (err flag, exactly the first b bytes delivered, distinct weight pairs) is therefore the
+// same for every partition of the output into Write calls.
+// Kind s (short count with a nil error, an io.Writer contract violation) is still accepted for manual experiments but
+// never generated: its effect depends on the partition into Write calls.
 //
 // Oracle (on the implementation's own output, independent of the Lean model):
 //   - weights only called with 0 <= j < i < n;
@@ -266,7 +269,10 @@ func init() {
 			}
 			return Result{Out: "c=" + showInts(ls), Oracle: c.badDom, Tags: tags}
 		},
-		Gen: c20GenExact("tspc", 80, 1000),
+		// Information only: the partition of the output into Write calls is not something the property fixes (a rewrite
+		// that buffers the weight section and sends it with one Write is behaviour-preserving), so no tspc line is ever
+		// generated and the protocol cannot cause a divergence verdict.  Use it by hand: echo "tspc 3 1 2 3" | vh run.
+		Gen: func(r *rand.Rand, tier string, emit func(string)) {},
 	})
 	register(&Proto{
 		Name:  "tspf",
@@ -449,7 +455,9 @@ func c20GenFault(r *rand.Rand, tier string, emit func(string)) {
 			}
 		}
 	}
-	all := []string{"e t", "e p", "s t"}
+	// Only kind e is generated: a short count with a nil error (kind s) is a contract-violating writer whose effect
+	// depends on how the output is cut into Write calls, which the property does not fix.
+	all := []string{"e t", "e p"}
 	// exhaustive over every byte position (hence every Write call, with and without a short count) for n <= 8
 	for n := 0; n <= 8; n++ {
 		sweep(c20Table(r, n, 0), all)
@@ -479,6 +487,6 @@ func c20GenFault(r *rand.Rand, tier string, emit func(string)) {
 		if r.Intn(3) == 0 {
 			b = c20HeaderLen(n) + r.Intn(total-c20HeaderLen(n)+1)
 		}
-		emit(fmt.Sprintf("tspf %s ; %d %d %s", tl, b, r.Intn(2), all[r.Intn(3)]))
+		emit(fmt.Sprintf("tspf %s ; %d %d %s", tl, b, r.Intn(2), all[r.Intn(len(all))]))
 	}
 }
